@@ -86,6 +86,22 @@ pub fn run(t: &[&str]) -> String {
             let r = a.v.seek(t[5].parse().unwrap());
             format!("{}{}", opt_bits(r), after(&[&a]))
         }
+        "detseek" | "invseek" => {
+            // the result of detach / invert is a value of its own: positions in it count from its first bit
+            let a = build(t[1], t[2], t[3], t[4]);
+            let Val { v, parent } = a;
+            let r = if t[0] == "detseek" { v.detach() } else { v.invert() };
+            let keep = Val { v: Bitstr::new(), parent };
+            format!("{}{}", opt_bits(r.seek(t[5].parse().unwrap())), after(&[&keep]))
+        }
+        "appseek" => {
+            let a = build(t[1], t[2], t[3], t[4]);
+            let b = build(t[5], t[6], t[7], t[8]);
+            let Val { v, parent } = a;
+            let r = v.append(&b.v);
+            let keep = Val { v: Bitstr::new(), parent };
+            format!("{}{}", opt_bits(r.seek(t[9].parse().unwrap())), after(&[&keep, &b]))
+        }
         "read" => {
             let mut a = build(t[1], t[2], t[3], t[4]);
             let r = a.v.read(t[5].parse().unwrap());
